@@ -952,6 +952,13 @@ class WalletTransaction(Transaction):
                 key_id = tx_key.id
                 tx_key.used = True
             spent = to.spent
+            if not spent and self.txid and sess.query(DbTransactionInput).join(DbTransaction). \
+                    filter(DbTransaction.wallet_id == self.hdwallet.wallet_id,
+                           DbTransactionInput.prev_txid == bytes.fromhex(self.txid),
+                           DbTransactionInput.output_n == to.output_n).first():
+                # A transaction stored in this wallet spends this output: it stays spent, whatever the source of this
+                # transaction knows about it
+                spent = True
             tx_output = sess.query(DbTransactionOutput). \
                 filter_by(transaction_id=txidn, output_n=to.output_n).scalar()
             if not tx_output:
